@@ -69,6 +69,12 @@ def run(ctx, known, built):
     if cases and cases[-1] == "":
         cases.pop()
     rexp = open(os.path.join(out, "rand_expected.txt")).read()
+    ctxp = os.path.join(out, "rand_context.txt")
+    contexts = open(ctxp).read().split("\n") if os.path.exists(ctxp) else []
+    multi = int(open(os.path.join(out, "multi_count.txt")).read()) if os.path.exists(os.path.join(out, "multi_count.txt")) else 0
+
+    def context_of(i):
+        return contexts[i] if i < len(contexts) and contexts[i] else None
     RS = 1000
     for b in range(0, len(cases), RS):
         cs = cases[b:b + RS]
@@ -107,16 +113,20 @@ def run(ctx, known, built):
             if kind == "exh":
                 return prefix + nth_seq(idx, n - len(prefix))
             return cases[n + idx]
+
+        def ctx_of(idx):
+            return context_of(n + idx) if kind == "rand" else None
         for (idx, m, e) in dv:
             s = seq_of(idx)
             ctx.disagreements.append({"what": "model verdict differs from implementation", "sequence": s,
-                                      "points": pretty(s), "model": ERR.get(m, m), "implementation": ERR.get(e, e)})
+                                      "points": pretty(s), "model": ERR.get(m, m), "implementation": ERR.get(e, e),
+                                      "document": ctx_of(idx) or "single contour"})
         for (idx, m, e) in dl:
             # by C11_accepts_iff_legal + legalb_decides: the implementation accepts iff e == '1'
             s = seq_of(idx)
             ctx.violations.append({"sequence": s, "points": pretty(s),
                                    "legal_by_specification": m == "1", "implementation_accepted": e == "1",
-                                   "demand": "accepted iff legal"})
+                                   "demand": "accepted iff legal", "document": ctx_of(idx) or "single contour"})
     # verdict 7 / 9 are violations by themselves (points changed, panic)
     for n in range(maxlen + 1):
         exp = open(os.path.join(out, "exh_%d.txt" % n)).read()
@@ -126,25 +136,27 @@ def run(ctx, known, built):
                 ctx.violations.append({"sequence": s, "points": pretty(s), "implementation": ERR[c]})
     for idx, c in enumerate(rexp):
         if c in "79A":
-            ctx.violations.append({"sequence": cases[idx], "points": pretty(cases[idx]), "implementation": ERR[c]})
+            ctx.violations.append({"sequence": cases[idx], "points": pretty(cases[idx]), "implementation": ERR[c],
+                                   "document": context_of(idx) or "single contour"})
     # de-duplicate violations by sequence, shortest first
     seen = set()
     uniq = []
     for v in sorted(ctx.violations, key=lambda v: (len(v["sequence"]), v["sequence"])):
-        if v["sequence"] not in seen:
-            seen.add(v["sequence"])
+        if (v["sequence"], v.get("document")) not in seen:
+            seen.add((v["sequence"], v.get("document")))
             uniq.append(v)
     ctx.violations[:] = uniq
     ctx.obligation("correspondence:C11 (%d shards)" % len(files), nshard_ok == len(files) and not ctx.disagreements,
                    "model and implementation differ")
-    total = summ["exhaustive_sequences"] + summ["random_sequences"]
+    total = summ["exhaustive_sequences"] + summ["random_sequences"] + multi
     ctx.cov.update({
         "evaluations": total,
         "distinct_nontrivial": summ["exhaustive_accepted"] + summ["random_accepted"],
         "rule": "every sequence over {move,line,offcurve,curve,qcurve}x{smooth,plain} of length <= %d through "
                 "Glyph::parse_raw and through the Coq model (distinct by construction), plus %d random sequences "
-                "of length 6..300 (90%% from a mostly-legal walk). Non-trivial = accepted by the implementation "
-                "(reaches end_path and exercises the wrap-around logic)." % (maxlen, summ["random_sequences"]),
+                "of length 6..300 (90%% from a mostly-legal walk), plus %d two-contour documents (every sequence of length <= 3/4 as the second "
+                "contour after 8 legal first contours x 4 separators: the verdict must be that of the sequence alone). Non-trivial = accepted by the implementation "
+                "(reaches end_path and exercises the wrap-around logic)." % (maxlen, summ["random_sequences"], multi),
         "exhaustive": True,
         "exhaustive_scope": "all sequences of length <= %d" % maxlen,
         "input_distribution": summ,
@@ -163,7 +175,12 @@ def replay(ctx, path):
         print("replay file names no sequence (kind=%s): %s" % (d.get("kind"), json.dumps(d)[:500]))
         return 1
     tmp = os.path.join(ctx.scratch, "replay.txt")
-    open(tmp, "w").write(seq + "\n")
+    doc = (d.get("input") or {}).get("document") or ""
+    import re
+    m = re.match(r"after contour (\d*) \(#\d+\), separator (\d)", doc)
+    open(tmp, "w").write(seq + "\n" + ("%s %s\n" % (m.group(1), m.group(2)) if m else ""))
+    if m:
+        print("document: first contour", pretty(m.group(1)), "separator", m.group(2))
     rc, o = sh([ctx.harness, "c11", "--replay", tmp, "--out", ctx.scratch])
     print("sequence:", pretty(seq))
     for ln in o.split():
